@@ -314,6 +314,90 @@ def foreign_owner_section(pid, res, count):
                     res["violations"].append(("path-disappeared", f"after the run {gone} are missing on a side", rep))
 
 
+def symlink_tie_section(pid, res, count):
+    """C02 / C07: one path is a SYMLINK on one side (`current -> notes-v2.txt`) and a REGULAR FILE on the other whose bytes are the
+    link's target string (what a checkout without symlink support leaves). The two fingerprints carry the same digest (a symlink
+    hashes its target string) and different types: a conflict — both versions survive, with and without a trusted archive
+    (seed C07-O: the loser's conflict copy was skipped "because the digests are equal", while `copy_atomic` follows the link and
+    overwrote the 12-byte file with the linked file's content)."""
+    for fault in ((False, True) if pid == "C07" else (False,)):
+        for link_side in ("A", "B"):
+            with Sandbox(pid) as sb:
+                a, b = sb.path("A"), sb.path("B")
+                base = {"notes-v2.txt": b"the notes, second version\n" * 3, "keep.txt": b"kept\n"}
+                sb.write_tree(a, base); sb.write_tree(b, base)
+                rc0, _, _ = sb.run(["bisync", a, b])
+                ls, fs_ = (a, b) if link_side == "A" else (b, a)
+                os.symlink("notes-v2.txt", os.path.join(ls, "current"))
+                open(os.path.join(fs_, "current"), "wb").write(b"notes-v2.txt")
+                lab = None
+                if fault:
+                    ap = sb.archive_path()
+                    if ap:
+                        open(ap, "wb").close(); lab = "archive zero-length"
+                rc, out, err = sb.run(["bisync", a, b])
+                count("symlink-vs-file-with-the-target-string/" + ("archive-fault" if fault else "trusted"))
+                def versions(root):
+                    got = set()
+                    for d_, _, fns in os.walk(root):
+                        for fn in fns:
+                            p_ = os.path.join(d_, fn)
+                            if os.path.islink(p_):
+                                got.add(("link", os.readlink(p_)))
+                            elif os.path.isfile(p_):
+                                got.add(("file", open(p_, "rb").read()))
+                    return got
+                va, vb = versions(a), versions(b)
+                rep = {"history": ["both: notes-v2.txt, keep.txt; bisync", f"{link_side}: current -> notes-v2.txt (symlink)", "other side: current = the 12 bytes `notes-v2.txt`"] + ([lab] if lab else []) + ["bisync"],
+                       "rc": rc, "stderr": err.decode("utf-8", "replace")[-300:], "A": sorted(os.listdir(a)), "B": sorted(os.listdir(b))}
+                if rc == 0 or b"had conflicts" in err:
+                    for side_, v_ in (("A", va), ("B", vb)):
+                        if ("file", b"notes-v2.txt") not in v_:
+                            res["violations"].append(("version-lost", f"after the run the 12-byte regular file version of `current` exists nowhere on side {side_}", rep))
+                            break
+
+
+def unhashable_file_section(pid, res, count):
+    """C02: both replicas hold, among ordinary files, one file the walk LISTS and the scan cannot HASH (its own path is longer than
+    PATH_MAX: `open` fails with ENAMETOOLONG). Such a file is skipped, never guessed — and the files around it keep THEIR OWN
+    digests: one side edits one file, the other side another, both edits propagate (seed C02-O: digests computed in parallel and
+    zipped back to the paths AFTER dropping the failures, so every path after the unhashable one got its successor's digest)."""
+    with Sandbox(pid) as sb:
+        a, b = sb.path("A"), sb.path("B")
+        base = {"m.txt": b"m v0\n", "notes.txt": b"notes v0\n", "report.txt": b"report v0\n", "z.txt": b"z v0\n"}
+        cwd0 = os.getcwd()
+        for root in (a, b):
+            sb.write_tree(root, base)
+            try:
+                os.chdir(root)
+                comp, depth = "d" * 200, 0
+                os.mkdir("0deep"); os.chdir("0deep")
+                while len(root) + 7 + depth * 201 + 201 < 4000:
+                    os.mkdir(comp); os.chdir(comp); depth += 1
+                open("L" * 240, "wb").write(b"its own path does not fit PATH_MAX\n")
+            finally:
+                os.chdir(cwd0)
+        try:
+            rc1, _, e1 = sb.run(["bisync", a, b], timeout=120)
+            if rc1 != 0:
+                count("unhashable-file/skipped-first-run-failed")
+                return
+            open(os.path.join(b, "notes.txt"), "wb").write(b"notes v1 - written on B\n")
+            open(os.path.join(a, "report.txt"), "wb").write(b"report v1 - written on A\n")
+            rc2, _, e2 = sb.run(["bisync", a, b], timeout=120)
+            count("unhashable-file/divergent-edits-around-it")
+            ga = {k: open(os.path.join(a, k), "rb").read() for k in base}; gb = {k: open(os.path.join(b, k), "rb").read() for k in base}
+            rep = {"history": ["A, B: m.txt notes.txt report.txt z.txt and 0deep/…/LLL… (path > PATH_MAX); bisync", "B: notes.txt edited", "A: report.txt edited", "bisync"],
+                   "rc": rc2, "stderr": e2.decode("utf-8", "replace")[-300:], "A": {k: v[:30].decode() for k, v in ga.items()}, "B": {k: v[:30].decode() for k, v in gb.items()}}
+            if rc2 == 0:
+                want = dict(base, **{"notes.txt": b"notes v1 - written on B\n", "report.txt": b"report v1 - written on A\n"})
+                if ga != want or gb != want:
+                    res["violations"].append(("version-lost", "two one-sided edits of different files next to an unhashable file: after an exit-0 run the replicas do not both hold both edits", rep))
+        finally:
+            for root in (a, b):
+                shutil.rmtree(os.path.join(root, "0deep"), ignore_errors=True)
+
+
 def non_utf8_section(pid, res, count):
     """C02 on names that are not valid UTF-8 (oracle only: the model's names are strings). Whatever the tool does with such a
     name — today every run fails at the save of the record, after converging the trees — a file created on ONE side must never be
@@ -682,6 +766,9 @@ def run(pid, tier, seed, rundir, model_run):
         two_filesystems_section(pid, res, count)
     if pid in ("C02", "C07"):
         foreign_owner_section(pid, res, count)
+        symlink_tie_section(pid, res, count)
+    if pid == "C02":
+        unhashable_file_section(pid, res, count)
     ops_f.close()
     with open(os.path.join(rundir, "impl.txt"), "w") as f:
         f.write("\n".join(impl_lines) + ("\n" if impl_lines else ""))
